@@ -1,1 +1,5 @@
+import Proofs.C02
+import Proofs.C03
+import Proofs.C04
+import Proofs.C05
 import Proofs.C11
